@@ -76,6 +76,10 @@ func runC20(cs *vrt.Case) {
 func runC20One(cs *vrt.Case) {
 	r := cs.Rng
 	if cs.Idx%4 == 3 {
+		if cs.Idx%8 == 7 {
+			c20FxFaulty(cs, r)
+			return
+		}
 		c20Fx(cs, r)
 		return
 	}
@@ -199,6 +203,128 @@ func c20Fx(cs *vrt.Case, r *vrt.Rng) {
 	cs.Count("fx_sessions", int64(nsess))
 	if nsess > 1 {
 		cs.Count("fx_concurrent_session_groups", 1)
+	}
+}
+
+// c20FxFaulty: one Fx/Fxk session whose receiver-side transport breaks at a
+// PRNG-chosen receive call. Operations completed before the break are judged as
+// usual; for the operation during which the transport broke the parties may
+// report errors, but if BOTH report success the shares must still recombine (a
+// swallowed transport error would hand back a made-up share).
+func c20FxFaulty(cs *vrt.Case, r *vrt.Rng) {
+	useCOT := r.Bool()
+	mk := func() ot.OT {
+		if useCOT {
+			return ot.NewCOT(ot.NewCO(r.Fork()), r.Fork(), false, false)
+		}
+		return ot.NewCO(r.Fork())
+	}
+	type op struct {
+		k    bool
+		a, b uint
+		s    bmr.Label
+	}
+	var ops []op
+	for i := 0; i < 6; i++ {
+		if r.Intn(3) == 0 {
+			var s bmr.Label
+			r.Read(s[:])
+			ops = append(ops, op{k: true, b: uint(r.Intn(2)), s: s})
+		} else {
+			ops = append(ops, op{a: uint(r.Intn(2)), b: uint(r.Intn(2))})
+		}
+	}
+	run := func(failAt int) (rr, xb []uint, rk, xk []bmr.Label, doneS, doneR []bool, calls int, faultOp int, pan *vrt.PanicInfo) {
+		snd, rcv := mk(), mk()
+		d := newDuplex(r, r.Intn(3), false)
+		fio := &otx.FaultIO{IO: d.B, FailAt: failAt}
+		n := len(ops)
+		rr, xb, rk, xk = make([]uint, n), make([]uint, n), make([]bmr.Label, n), make([]bmr.Label, n)
+		doneS, doneR = make([]bool, n), make([]bool, n)
+		faultOp = -1
+		ra, rb := runPair(d, func() error {
+			if err := snd.InitSender(d.A); err != nil {
+				return err
+			}
+			for i, o := range ops {
+				var err error
+				if o.k {
+					rk[i], err = bmr.FxkSend(snd, o.s)
+				} else {
+					rr[i], err = bmr.FxSend(snd, o.a)
+				}
+				if err != nil {
+					return err
+				}
+				doneS[i] = true
+			}
+			return nil
+		}, func() error {
+			if err := rcv.InitReceiver(fio); err != nil {
+				return err
+			}
+			for i, o := range ops {
+				var err error
+				if o.k {
+					xk[i], err = bmr.FxkReceive(rcv, o.b)
+				} else {
+					xb[i], err = bmr.FxReceive(rcv, o.b)
+				}
+				if fio.Fired() && faultOp < 0 {
+					faultOp = i
+				}
+				if err != nil {
+					return err
+				}
+				doneR[i] = true
+				if fio.Fired() {
+					return nil // the stream is out of step after the break: stop here
+				}
+			}
+			return nil
+		})
+		return rr, xb, rk, xk, doneS, doneR, fio.Calls, faultOp, firstPanic(ra, rb)
+	}
+	_, _, _, _, _, _, calls, _, pan := run(0)
+	if pan != nil || calls < 2 {
+		cs.Inconc("clean Fx run for sizing failed")
+		return
+	}
+	for trial := 0; trial < 6; trial++ {
+		failAt := 1 + r.Intn(calls)
+		if trial%2 == 0 {
+			failAt = calls - r.Intn(min(calls, 8)) // the last messages of the last operations
+		}
+		rr, xb, rk, xk, doneS, doneR, _, faultOp, pan := run(failAt)
+		cs.Evals++
+		cs.Count("fx_sessions_with_a_broken_transport", 1)
+		desc := map[string]any{"kind": "bmr.Fx/Fxk, receiver's transport breaks", "fail_at_receive_call": failAt, "of": calls, "ot": map[bool]string{true: "COT(CO)", false: "CO"}[useCOT]}
+		cs.SetSample(desc)
+		if pan != nil {
+			cs.Count("fx_broken_transport_panics", 1) // not what this property forbids
+			continue
+		}
+		for i, o := range ops {
+			if !doneS[i] || !doneR[i] || (faultOp >= 0 && i > faultOp) {
+				continue
+			}
+			if i == faultOp {
+				cs.Count("fx_ops_reported_success_across_the_break", 1)
+			}
+			if o.k {
+				want := rk[i]
+				if o.b == 1 {
+					want.Xor(o.s)
+				}
+				if !xk[i].Equal(want) {
+					cs.Violate("C20|fxk|success-across-broken-transport", fmt.Sprintf("Fxk: both parties reported success for an operation during which the receiver's transport broke (receive call %d), but r xor x_b != b*s", failAt), map[string]any{"case": desc})
+					return
+				}
+			} else if rr[i]^xb[i] != o.a*o.b {
+				cs.Violate("C20|fx|success-across-broken-transport", fmt.Sprintf("Fx: both parties reported success for an operation during which the receiver's transport broke (receive call %d), but r xor x_b = %d and a*b = %d", failAt, rr[i]^xb[i], o.a*o.b), map[string]any{"case": desc})
+				return
+			}
+		}
 	}
 }
 
